@@ -1661,7 +1661,7 @@ def _case_setcode_full(rng):
         m = rng.choice([1, 2, 4])
         vals = [rng.choice(pool) if rng.random() < 0.5 else rng.randrange(min(n, hi + 1)) for _ in range(m)]
         if rng.random() < 0.65:
-            ops += [f"s_setcode 0 {_spell(rng, dt)} {_ints(vals)}", "s_str 0", "s_code 0", "s_valid 0"]
+            ops += [f"s_setcode 0 {_spell(rng, dt, 'sb')} {_ints(vals)}", "s_str 0", "s_code 0", "s_valid 0"]
         else:
             ops += [f"s_setarr 0 0 {m} {_spell(rng, dt)} {_ints(vals)}", "s_str 0"]
             ops += ["s_setcode 0 u64 0,1,2,3"]          # back to a known valid state of length 4
@@ -1669,7 +1669,10 @@ def _case_setcode_full(rng):
 
 
 def _spell(rng, dt, forms="srb"):
-    """the same array in another spelling: strided view / read-only / byte-swapped"""
+    """the same array in another spelling: strided view / read-only / byte-swapped.
+    NOTE: `s_setcode` never gets a read-only array: the setter adopts an array that already has the code dtype
+    (`astype(copy=False)`), so the sequence itself would become read-only and refuse later assignments with ValueError
+    (numpy semantics; a refusal, not a wrong value) — neither the model nor the property speaks about that."""
     if dt in ("list", "tuple") or rng.random() < 0.5:
         return dt
     return dt + "@" + rng.choice(forms)
@@ -1750,6 +1753,7 @@ def _case_seq_api(rng):
         ops.append(f"s_new {ext} {_toks(_rand_syms(rng, ext, 3))}")
         symtoks, bad = al, ("33" if spec.startswith("L:") and "33" not in al else "sZZ" if not spec.startswith("L:") else "126")
     # the first op may have been refused: registers exist only if it succeeded -> ERR:noreg on both sides otherwise
+    shared = set()
     for _ in range(rng.randint(4, 8)):
         i = rng.choice([0, 0, 1])
         r = rng.random()
@@ -1761,15 +1765,18 @@ def _case_seq_api(rng):
                 syms.append(bad)
             ops += [f"s_setsymbols {i} {_toks(syms)}", f"s_str {i}", f"s_code {i}"]
         elif r < 0.5:
+            if i in shared:      # as_type made the two sequences share ONE code array (numpy view semantics): no in-place mutation
+                continue
             ops += [f"s_set {i} {rng.randint(-3, 3)} {bad if rng.random() < 0.5 else rng.choice(symtoks)}", f"s_str {i}", f"s_code {i}"]
         elif r < 0.6:
             dt = rng.choice(["i64", "i8", "u16", "u8"])
-            ops += [f"s_setcode {i} {_spell(rng, dt)} {_ints(_rand_codes(rng, len(symtoks), rng.choice([1, 3]), dt, 0.4))}", f"s_str {i}", f"s_valid {i}"]
+            ops += [f"s_setcode {i} {_spell(rng, dt, 'sb')} {_ints(_rand_codes(rng, len(symtoks), rng.choice([1, 3]), dt, 0.4))}", f"s_str {i}", f"s_valid {i}"]
         elif r < 0.7:
             ops.append(f"s_pos {i}")
         elif r < 0.8 and mode == "gen":
             a, b = rng.choice([(0, 1), (1, 0), (0, 0)])
             ops += [f"s_astype {a} {b}", f"s_str {b}", f"s_str {a}", f"s_eq {a} {b}"]
+            shared.update([a, b])
         elif r < 0.9 and mode == "prot":
             ops += [f"s_rmstops {i}", f"s_str {i}"]
         else:
